@@ -7,6 +7,12 @@ def sgn(v, w): return v - (1 << w) if v >> (w - 1) else v
 def main():
     d = json.loads(sys.stdin.read())
     lib = ctypes.CDLL(d['so'])
+    if 'batch' in d:
+        for c in d['batch']:
+            one(lib, c); sys.stdout.flush()
+        return
+    one(lib, d)
+def one(lib, d):
     f = getattr(lib, d['fn']); cargs = []; types = []; bufs = []
     for k, v in d['args']:
         if k == 'i32': cargs.append(ctypes.c_int32(sgn(v & 0xffffffff, 32))); types.append(ctypes.c_int32)
